@@ -39,7 +39,7 @@ def val_sx(v):
         return '(%s %d)' % (t, v[1])
     if t == 'f':
         return '(f %d)' % fbits(v[1])
-    if t in ('s', 'str', 'strptr', 'jnum', 'strslice', 'strreent', 'strsame', 'strver', 'strverptr'):
+    if t in ('s', 'str', 'strptr', 'jnum', 'strslice', 'strreent', 'strsame', 'strtm', 'strmut', 'strver', 'strverptr'):
         return '(%s %s)' % (t, hx(v[1]))
     if t == 'o':
         return '(o %d)' % v[1]
@@ -209,7 +209,7 @@ class CaseSet:
         rb = rule.encode('utf-8') if isinstance(rule, str) else rule
         meta.setdefault('rule', rb)
         meta.setdefault('ops', ops)
-        body = ' '.join('(%s %s)' % (o[0], val_sx(o[1])) if o[0] in ('p', 'q') else o[0] for o in ops)
+        body = ' '.join('(%s %s)' % (o[0], val_sx(o[1])) if o[0] in ('p', 'q', 'u', 'n') else o[0] for o in ops)
         return self._add('hist', '%s (%s)' % (hx(rb), body), fam, meta)
     def simple(self, kind, arg, fam, **meta):
         meta.setdefault('arg', arg)
@@ -228,7 +228,7 @@ def case_desc(c):
         return {'text': m['text'].decode('utf-8', 'replace'), 'family': c.fam}
     if c.kind == 'hist':
         return {'rule': m['rule'].decode('utf-8', 'replace'),
-                'ops': [('Process ' + val_desc(o[1])) if o[0] == 'p' else ('Process (same map value, mutated in place to) ' + val_desc(o[1])) if o[0] == 'q' else {'r': 'Reset', 'd': 'LastDebugErr'}[o[0]] for o in m['ops']],
+                'ops': [('Process ' + val_desc(o[1])) if o[0] == 'p' else ('Process (LastDebugErr not read afterwards) ' + val_desc(o[1])) if o[0] == 'n' else ('Process (same map value, mutated in place to) ' + val_desc(o[1])) if o[0] == 'q' else ('(the caller changes its object in place, no call, to) ' + val_desc(o[1])) if o[0] == 'u' else {'r': 'Reset', 'd': 'LastDebugErr'}[o[0]] for o in m['ops']],
                 'family': c.fam}
     if c.kind == 'opcall':
         return {'call': '%sOperation.%s' % (m['optype'], m['op']), 'left': val_desc(m['left']), 'right': m['right'], 'family': c.fam}
@@ -254,11 +254,11 @@ def parse_obs_line(line):
         d['tree'] = tree
     return parts[0], d
 
-def _run_shard(cmd, infile, outfile, timeout, memlimit_kb):
+def _run_shard(cmd, infile, outfile, timeout, memlimit_kb, env=None):
     # the extracted model uses non-tail-recursive list functions: give it the whole stack it may need
     pre = 'ulimit -s unlimited 2>/dev/null; ulimit -v %d; ' % memlimit_kb if memlimit_kb else ''
     return subprocess.Popen(['bash', '-c', pre + 'exec "$0" "$1" "$2"', cmd, infile, outfile],
-                            stdout=subprocess.DEVNULL, stderr=subprocess.PIPE)
+                            stdout=subprocess.DEVNULL, stderr=subprocess.PIPE, env=env)
 
 class RunResult:
     def __init__(self):
@@ -268,7 +268,7 @@ class RunResult:
         self.crashes = []       # (side, shard, returncode, stderr tail, first missing case id)
         self.wall = 0.0
 
-def run_cases(cases, workdir, nshards=None, timeout=900, label='cases', sides=('impl', 'model')):
+def run_cases(cases, workdir, nshards=None, timeout=900, label='cases', sides=('impl', 'model'), impl_env=None):
     """Runs the driver and the model runner over the cases (sharded, in parallel)."""
     t0 = time.time()
     os.makedirs(workdir, exist_ok=True)
@@ -291,7 +291,8 @@ def run_cases(cases, workdir, nshards=None, timeout=900, label='cases', sides=('
             if os.path.exists(outf):
                 os.unlink(outf)
             # Go needs a large virtual address space: no ulimit -v for the driver
-            p = _run_shard(cmd, inf, outf, timeout, 0 if side == 'impl' else 8 * 1024 * 1024)
+            p = _run_shard(cmd, inf, outf, timeout, 0 if side == 'impl' else 8 * 1024 * 1024,
+                           env=(dict(os.environ, **impl_env) if impl_env and side == 'impl' else None))
             procs.append((side, si, sh, outf, p))
     deadline = time.time() + timeout
     for side, si, sh, outf, p in procs:
